@@ -235,7 +235,7 @@ class Task:
 
         if version == "1.0":
             if connection == "keep-alive":
-                if not content_length_header:
+                if not content_length_header or self.close_on_finish:
                     self.set_close_on_finish()
                 else:
                     self.response_headers.append(("Connection", "Keep-Alive"))
